@@ -18,15 +18,15 @@ type avlOps struct {
 	reset    func()
 	add      func(which, v int)
 	remove   func(which, v int) bool
-	contains func(v int) bool
-	clear    func()
-	clone    func()
+	contains func(which, v int) bool
+	clear    func(which int)
+	clone    func(src, dst int)
 	obs      func(which int, full bool, nv int) M
 	cmps     func() int
 }
 
 func mkAVL[T comparable](verbatim bool, to func(int) T, from func(T) int, cmp func(a, b T) int) *avlOps {
-	var t [2]avl.Tree[T]
+	var t [3]avl.Tree[T]
 	n := 0
 	counting := func(a, b T) int { n++; return cmp(a, b) }
 	walk := func(f func(func(T))) []int {
@@ -42,12 +42,12 @@ func mkAVL[T comparable](verbatim bool, to func(int) T, from func(T) int, cmp fu
 		return out
 	}
 	o := &avlOps{}
-	o.reset = func() { t[0], t[1] = avl.New(counting), avl.New(counting); n = 0 }
+	o.reset = func() { t[0], t[1], t[2] = avl.New(counting), avl.New(counting), avl.New(counting); n = 0 }
 	o.add = func(w, v int) { t[w].Add(to(v)) }
 	o.remove = func(w, v int) bool { return t[w].Remove(to(v)) }
-	o.contains = func(v int) bool { return t[0].Contains(to(v)) }
-	o.clear = func() { t[0].Clear() }
-	o.clone = func() { t[1] = t[0].Clone() }
+	o.contains = func(w, v int) bool { return t[w].Contains(to(v)) }
+	o.clear = func(w int) { t[w].Clear() }
+	o.clone = func(src, dst int) { t[dst] = t[src].Clone() }
 	o.cmps = func() int { c := n; n = 0; return c }
 	o.obs = func(w int, full bool, nv int) M {
 		m := M{"len": t[w].Len(), "pre": []int{}, "ino": []int{}, "post": []int{}, "wpre": []int{}, "wino": []int{}, "wpost": []int{},
@@ -94,16 +94,23 @@ func driveAVL(plan []M, out *Out, _ []string) {
 		func(a, b avlKV) int { return a.Key - b.Key })
 	ops := intOps
 	nv := 0
-	hasb := false
+	live := [3]bool{true, false, false}
+	empty := func() M {
+		return M{"len": 0, "pre": []int{}, "ino": []int{}, "post": []int{}, "wpre": []int{}, "wino": []int{}, "wpost": []int{}, "has": []bool{}, "str": ""}
+	}
 	for _, c := range plan {
 		op, arg := str(c, "op"), num(c, "arg")
+		w, src, dst := num(c, "w"), num(c, "src"), num(c, "dst") // trees are numbered 1..3 in the trace
+		if w == 0 {
+			w = 1
+		}
 		full := true
 		if v, ok := c["full"]; ok {
 			full = v.(bool)
 		}
-		e := M{"op": op, "arg": arg, "ret": false, "full": full}
+		e := M{"op": op, "arg": arg, "ret": false, "full": full, "w": w, "src": src, "dst": dst}
 		if op == "Reset" {
-			nv, hasb = num(c, "nv"), false
+			nv, live = num(c, "nv"), [3]bool{true, false, false}
 			switch str(c, "ty") {
 			case "string":
 				ops = strOps
@@ -121,38 +128,42 @@ func driveAVL(plan []M, out *Out, _ []string) {
 		e["panic"] = protect(func() {
 			switch op {
 			case "Add":
-				ops.add(0, arg)
+				ops.add(w-1, arg)
 				e["ret"] = true
 			case "Remove":
-				e["ret"] = ops.remove(0, arg)
-			case "Add2":
-				ops.add(1, arg)
-				e["ret"] = true
-			case "Remove2":
-				e["ret"] = ops.remove(1, arg)
+				e["ret"] = ops.remove(w-1, arg)
 			case "Contains":
-				e["ret"] = ops.contains(arg)
+				e["ret"] = ops.contains(w-1, arg)
 			case "Clear":
-				ops.clear()
+				ops.clear(w - 1)
 				e["ret"] = true
 			case "Clone":
-				ops.clone()
-				hasb = true
+				ops.clone(src-1, dst-1)
+				live[dst-1] = true
 				e["ret"] = true
 			}
 		})
 		e["cmps"] = ops.cmps()
-		var oa, ob M
-		p2 := protect(func() { oa = ops.obs(0, full, nv); ob = ops.obs(1, full && hasb, nv) })
+		ts := []M{}
+		p2 := protect(func() {
+			for i := 0; i < 3; i++ {
+				if live[i] {
+					ts = append(ts, ops.obs(i, full, nv))
+				} else {
+					ts = append(ts, empty())
+				}
+			}
+		})
 		if e["panic"] == "" && p2 != "" {
 			e["panic"] = "observation: " + p2
 		}
-		if oa == nil || ob == nil {
-			oa = M{"len": -1, "pre": []int{}, "ino": []int{}, "post": []int{}, "wpre": []int{}, "wino": []int{}, "wpost": []int{}, "has": []bool{}, "str": ""}
-			ob = oa
+		for len(ts) < 3 {
+			x := empty()
+			x["len"] = -1
+			ts = append(ts, x)
 		}
-		e["a"], e["b"], e["hasb"] = oa, ob, hasb
-		e["xpre"], e["xpre2"] = oa["pre"], ob["pre"]
+		e["t"], e["live"] = ts, []bool{live[0], live[1], live[2]}
+		e["xpre"], e["xpre2"] = ts[0]["pre"], ts[1]["pre"]
 		out.Emit(e)
 	}
 }
